@@ -19,5 +19,5 @@ MenuQ == { <<M("send", 1)>>, <<M("send", 2)>>, <<M("send", 3)>>, <<M("pay", 1)>>
 MenuT == MenuQ \cup { <<M("pay", 2), M("grow", 1)>>, <<M("grow", 2), M("shrink", 1)>>, <<M("send", 1), M("other", 1)>>,
                       <<M("give", 1), M("send", 3)>>, <<M("pay", 3)>>, <<M("shrink", 2)>>, <<M("grow", 1), M("paypanic", 2)>> }
 CreatesQ == { C(3, 0, 0, "*"), C(2, 2, 0, "*"), C(3, 0, 2, "*"), C(0, 0, 0, "*"), C(3, 0, 0, "send"), C(3, 2, 0, "exec"), C(3, 0, 0, "execother") }
-F01 == {0, 1}
+F12 == {1, 2}   \* a transaction with a zero fee cannot be expressed (the zero coin loses its denom on the wire and fails Tx.ValidateBasic)
 =============================================================================
